@@ -263,7 +263,9 @@ func BlockOnInteractiveRequests(caller ...string) {
 // SetReadOnly can put the server in a read-only mode.
 func SetReadOnly(on bool) {
 	readonly = on
-	fullwrite = !on
+	if on {
+		fullwrite = false
+	}
 }
 
 // SetFullWrite allows mutations on any version.
